@@ -395,6 +395,7 @@ func ruleSkipDiscipline(c *Ctx, rule string, exceptions map[string]string) {
 			pos   token.Pos
 			kinds []string
 			n     int
+			mem   bool // the index is read from a variable that closures share
 		}
 		groups := map[string]*grp{}
 		var keys []string
@@ -414,6 +415,9 @@ func ruleSkipDiscipline(c *Ctx, rule string, exceptions map[string]string) {
 			}
 			g.n++
 			g.kinds = append(g.kinds, d.kind)
+			if sharedVariableLoad(d.idx) {
+				g.mem = true
+			}
 		}
 		sort.Strings(keys)
 		for _, key := range keys {
@@ -432,6 +436,8 @@ func ruleSkipDiscipline(c *Ctx, rule string, exceptions map[string]string) {
 				}
 				if ok {
 					ob.Exc(why)
+				} else if g.mem {
+					ob.Und("the position is kept in a variable that a closure of the function updates (a captured index): whether it was skipped over layout before these tests is not followed")
 				} else {
 					ob.Bad(fmt.Sprintf("%d token-kind test(s) (%s) look at a position that was not skipped over whitespace and comments: inserting a blank or a comment there changes which branch the parser takes",
 						g.n, strings.Join(uniq(g.kinds), ", ")))
@@ -609,4 +615,24 @@ func provenNonNil(v ssa.Value, at ssa.Instruction) bool {
 		}
 	})
 	return ok
+}
+
+// sharedVariableLoad: v is read from a local that a closure captures (or from the captured variable inside the closure): its
+// value at this point depends on what the closures did to it.
+func sharedVariableLoad(v ssa.Value) bool {
+	u, ok := v.(*ssa.UnOp)
+	if !ok || u.Op != token.MUL {
+		return false
+	}
+	switch x := u.X.(type) {
+	case *ssa.FreeVar:
+		return true
+	case *ssa.Alloc:
+		for _, ref := range *x.Referrers() {
+			if _, ok := ref.(*ssa.MakeClosure); ok {
+				return true
+			}
+		}
+	}
+	return false
 }
